@@ -447,6 +447,11 @@ def lst5(units, R):
                 # a pointer-to-link cursor (cJSON **link = &result; ... link = &x->next) designates a local or a link field
                 ok = False
                 why = 'sorting writes through a raw pointer'
+                if l.get('k') == 'idx':
+                    b_ = strip_casts(l['b'])
+                    if b_.get('k') == 'ref' and b_.get('dk') == 'local' and u.ty(b_.get('ty0', b_['ty']))['c'] == 'array':
+                        ok = True
+                        why = 'an element of the local array %s (the sorter\'s own scratch)' % b_['n']
                 inner = strip_casts(l['e']) if l.get('k') == 'un' and l['op'] == '*' else None
                 if inner is not None and inner.get('k') == 'ref' and inner.get('dk') == 'local':
                     targets = [strip_casts(x['r']) for x in assignments(fn) if is_ref(x['l']) and strip_casts(x['l'])['d'] == inner['d']]
